@@ -6,6 +6,7 @@ import Rpcx.Driver.Select
 import Rpcx.Driver.Pool
 import Rpcx.Driver.FailMode
 import Rpcx.Driver.Fanout
+import Rpcx.Driver.Discovery
 /-
   Line-protocol driver: one operation per input line, one canonical output line per
   operation.  Runs the executable definitions of the model (generated and hand-written);
@@ -26,6 +27,7 @@ def step (line : String) : String :=
   | "fm" :: ws => cmdFm ws
   | "fb" :: ws => cmdFb ws
   | "fan" :: ws => cmdFan ws
+  | "filter" :: ws => cmdFilter ws
   | _ => "bad-op"
 
 partial def loop (hin : IO.FS.Stream) (hout : IO.FS.Stream) : IO Unit := do
